@@ -31,13 +31,14 @@ const (
 	OpRewind
 	OpSwitch
 	OpFill
+	OpByz
 	numOpKinds
 )
 
-var opKindNames = []string{"mine", "transfer", "convert", "qispend", "rewind", "switch", "fill"}
+var opKindNames = []string{"mine", "transfer", "convert", "qispend", "rewind", "switch", "fill", "byz"}
 
 // weighted kind table (index drawn uniformly)
-var opKindTable = []int{OpMine, OpMine, OpMine, OpMine, OpMine, OpTransfer, OpTransfer, OpConvert, OpConvert, OpQiSpend, OpQiSpend, OpQiSpend, OpRewind, OpSwitch, OpFill}
+var opKindTable = []int{OpMine, OpMine, OpMine, OpMine, OpMine, OpTransfer, OpTransfer, OpConvert, OpConvert, OpQiSpend, OpQiSpend, OpQiSpend, OpRewind, OpSwitch, OpFill, OpByz, OpByz, OpByz}
 
 var OpGen = rapid.Custom(func(t *rapid.T) Op {
 	return Op{
@@ -66,6 +67,10 @@ type Hooks struct {
 	// TxBuilt sees every transaction the harness hands to a pool.
 	TxBuilt func(w *World, tx *types.Transaction, flavour string, poolErr error)
 	End     func(w *World)
+	// ByzProps selects which rows of the mutation table the byz op uses (nil: byz ops are skipped).
+	ByzProps map[string]bool
+	// Byz receives the outcome of every byzantine block presented to the node.
+	Byz func(w *World, n *Node, m Mutation, out ByzOutcome)
 }
 
 // Runner interprets a tape on one node (w.Nodes[0]).
@@ -116,6 +121,34 @@ func (r *Runner) Step(op Op) bool {
 	case OpFill:
 		if err := w.Fill(n); err != nil {
 			w.Tr.Event("fill err=%v", err)
+		}
+	case OpByz:
+		if r.Hooks.ByzProps == nil {
+			return true
+		}
+		var rows []Mutation
+		for _, m := range Mutations {
+			if r.Hooks.ByzProps[m.Prop] {
+				rows = append(rows, m)
+			}
+		}
+		if len(rows) == 0 {
+			return true
+		}
+		m := rows[(op.A*16+op.B)%len(rows)]
+		out, err := w.Byzantine(n, r.Head, m, op.C, uint64(op.D)*7919+uint64(len(w.Tips))*104729)
+		if err != nil {
+			w.Tr.Event("byz %s harness-error %v", m.Name, err)
+			r.inc("byz_harness_error")
+			return false
+		}
+		w.Tr.Event("byz %s applied=%v appended=%v accepted=%v hash=%x", m.Name, out.Applied, out.Appended, out.Accepted, out.Hash[:6])
+		if out.Applied {
+			r.inc("byz_presented")
+			simkit.Global.Inc("fault.byz." + m.Name)
+			if r.Hooks.Byz != nil {
+				r.Hooks.Byz(w, n, m, out)
+			}
 		}
 	case OpTransfer:
 		from := op.A % 4
